@@ -118,11 +118,11 @@ func (bf *buffer) Close() error {
 	bf.pcond.L.Unlock()
 
 	verifYield(14)
-	bf.pcond.L.Lock()
+	bf.ccond.L.Lock()
 	verifYield(15)
 	bf.ccond.Broadcast()
 	verifYield(16)
-	bf.pcond.L.Unlock()
+	bf.ccond.L.Unlock()
 
 	return nil
 }
